@@ -434,7 +434,10 @@ func (c *fnCtx) block(stmts []ast.Stmt) *Node {
 	return seq(out)
 }
 
-func (c *fnCtx) mentionsReject(n ast.Node) bool {
+// mentionsReject: the statement writes a 429 / StatusTooManyRequests, passes the block error to
+// a method of a parameter, or (errIdent: only asked for return statements) mentions the block
+// error variable at all
+func (c *fnCtx) mentionsReject(n ast.Node, errIdent bool) bool {
 	found := false
 	ast.Inspect(n, func(x ast.Node) bool {
 		switch y := x.(type) {
@@ -446,8 +449,20 @@ func (c *fnCtx) mentionsReject(n ast.Node) bool {
 			if y.Value == "429" {
 				found = true
 			}
+		case *ast.CallExpr:
+			// the block error handed to a framework object this function received as a
+			// parameter (micro: stream.Send(blockErr)); log.Println(blockErr) is not that
+			if r, p, ok := selPath(y.Fun); ok && p != "" && c.blockErr != "" {
+				if _, isParam := c.params[r]; isParam {
+					for _, a := range y.Args {
+						if id, ok := a.(*ast.Ident); ok && id.Name == c.blockErr {
+							found = true
+						}
+					}
+				}
+			}
 		case *ast.Ident:
-			if c.blockErr != "" && y.Name == c.blockErr {
+			if errIdent && c.blockErr != "" && y.Name == c.blockErr {
 				found = true
 			}
 		}
@@ -757,6 +772,20 @@ func (c *fnCtx) stmt(s ast.Stmt) *Node {
 				return &Node{Op: "DeferExit", E: c.id(id.Name)}
 			}
 		}
+		// defer func() { e.Exit() }()  -- the same thing written as a closure (the entry
+		// variable is assigned once: any other assignment to it is an Unknown)
+		if fl, ok := x.Call.Fun.(*ast.FuncLit); ok && len(x.Call.Args) == 0 && fl.Type.Params.NumFields() == 0 &&
+			fl.Type.Results.NumFields() == 0 && len(fl.Body.List) == 1 {
+			if es, ok := fl.Body.List[0].(*ast.ExprStmt); ok {
+				if call, ok := es.X.(*ast.CallExpr); ok && len(call.Args) == 0 {
+					if sel, ok := call.Fun.(*ast.SelectorExpr); ok {
+						if id, ok := sel.X.(*ast.Ident); ok && c.entryVar[id.Name] && sel.Sel.Name == "Exit" {
+							return &Node{Op: "DeferExit", E: c.id(id.Name)}
+						}
+					}
+				}
+			}
+		}
 		return c.unknown(s)
 
 	case *ast.ReturnStmt:
@@ -783,7 +812,7 @@ func (c *fnCtx) stmt(s ast.Stmt) *Node {
 			if ff.entryUse {
 				out = append(out, c.entryUses(s))
 			}
-			if c.inBlock && c.mentionsReject(s) {
+			if c.inBlock && c.mentionsReject(s, true) {
 				out = append(out, &Node{Op: "DefaultReject"})
 			}
 		}
@@ -806,9 +835,10 @@ func (c *fnCtx) stmt(s ast.Stmt) *Node {
 }
 
 // a statement with no modelled construct: inside the blocked branch it is the default
-// rejection if it writes a 429 / hands the block error on; otherwise Other
+// rejection if it writes a 429 (merely mentioning the block error, e.g. logging it, is not
+// a rejection: the block error counts only when a return statement hands it on); otherwise Other
 func (c *fnCtx) rejectOrOther(s ast.Stmt) *Node {
-	if c.inBlock && c.mentionsReject(s) {
+	if c.inBlock && c.mentionsReject(s, false) {
 		return &Node{Op: "DefaultReject"}
 	}
 	return other()
